@@ -18,6 +18,12 @@ pub struct Logical {
     pub order_seed: u32,
     pub meta: J,
     pub settings: Settings,
+    /// tiles (selectors into `tiles`) that are added a second time with byte-identical content after the
+    /// insertion pass, and tiles that first receive another content of the pool (overwritten by the right one)
+    #[serde(default)]
+    pub readds: Vec<u16>,
+    #[serde(default)]
+    pub wrong_first: Vec<(u16, u16)>,
 }
 
 impl Logical {
@@ -73,9 +79,21 @@ impl Logical {
         let mut a = if asyncw { Arch::new_async() } else { Arch::new_sync() };
         a.set_fields(&self.fields());
         let c = self.contents();
+        if !self.tiles.is_empty() {
+            for (t, w) in &self.wrong_first {
+                let (id, _) = self.tiles[pick(*t, self.tiles.len())];
+                a.add(id, c[pick(*w, c.len())].clone()).map_err(|e| format!("add_tile({id}) failed: {e}"))?;
+            }
+        }
         for i in self.insertion_order(self.order_seed) {
             let (id, s) = self.tiles[i];
             a.add(id, c[self.pool_index(s)].clone()).map_err(|e| format!("add_tile({id}) failed: {e}"))?;
+        }
+        if !self.tiles.is_empty() {
+            for t in &self.readds {
+                let (id, s) = self.tiles[pick(*t, self.tiles.len())];
+                a.add(id, c[self.pool_index(s)].clone()).map_err(|e| format!("re-add_tile({id}) failed: {e}"))?;
+            }
         }
         Ok(a)
     }
@@ -118,7 +136,15 @@ pub fn logical(g: Gen) -> impl Strategy<Value = Logical> {
         .prop_map(|(idv, sels, (pool, meta, settings, order_seed, n, _))| {
             let mut tiles: Vec<(u64, u16)> = idv.into_iter().zip(sels).collect();
             tiles.truncate(n);
-            Logical { pool, tiles, order_seed, meta, settings }
+            Logical { pool, tiles, order_seed, meta, settings, readds: Vec::new(), wrong_first: Vec::new() }
+        })
+        .prop_flat_map(|l| {
+            (Just(l), prop_oneof![3 => Just(Vec::new()), 2 => proptest::collection::vec(any::<u16>(), 1..4)], prop_oneof![3 => Just(Vec::new()), 1 => proptest::collection::vec(any::<(u16, u16)>(), 1..3)])
+        })
+        .prop_map(|(mut l, readds, wrong_first)| {
+            l.readds = readds;
+            l.wrong_first = wrong_first;
+            l
         })
 }
 
@@ -139,6 +165,8 @@ pub fn large(n: usize, seed: u64, internal: u8) -> Logical {
         pool,
         tiles,
         order_seed: seed as u32 | 1,
+        readds: Vec::new(),
+        wrong_first: Vec::new(),
         meta: J::O(vec![("name".into(), J::S("large".into())), ("n".into(), J::U(n as u64))]),
         settings: Settings {
             tile_type: 1,
